@@ -18,6 +18,7 @@ EXTENDS RadarSession, IOUtils, TLC
 
 MCRetry == IOEnv.RETRY = "1"
 MCRestore == IOEnv.RESTORE = "1"
+MCClear == IOEnv.CLEAR = "1"
 MaxCloses == 2
 Aircraft == {1, 2}
 
@@ -39,7 +40,8 @@ PTop == m.pc = "top" /\ m' = Top(m) /\ UNCHANGED <<conn, server, closes>>
 PRead == /\ m.pc = "read"
          /\ \/ conn = "closed" /\ m' = Disconnect(m) /\ conn' = "none"                     \* end of file
             \/ conn = "open" /\ m' = Line(m) /\ UNCHANGED conn                                  \* a complete line
-            \/ conn = "open" /\ m' = Coverage(m) /\ UNCHANGED conn                              \* timeout / partial line
+            \/ conn = "open" /\ m' = Coverage(m) /\ UNCHANGED conn                              \* timeout, nothing arrived
+            \/ conn = "open" /\ m' = PartialRead(m) /\ UNCHANGED conn                           \* timeout after the beginning of a line
          /\ UNCHANGED <<server, closes>>
 PLine == /\ m.pc = "lined"
          /\ \/ \E a \in Aircraft : m' = Action(m, m.tracked \cup {a})                          \* a frame the tracker takes
@@ -71,7 +73,8 @@ KeepsAircraft == [][(m.pc = "wait" /\ m'.pc = "top") => m'.tracked = m.tracked]_
 RunsUntilAsked == [][m'.pc = "exit" => m'.quit # "none"]_vars
 TypeOK == m.pc \in {"start", "wait_draw", "wait", "top", "read", "lined", "actioned", "covered", "events", "bottom", "restore", "exit"}
           /\ m.quit \in {"none", "user", "tcp"} /\ m.tracked \subseteq Aircraft
-Inv == TypeOK /\ TerminalRestored /\ Reason
+LinesIntact == NoLineSpoiled(m)
+Inv == TypeOK /\ TerminalRestored /\ Reason /\ LinesIntact
 
 \* ---- liveness ----
 QuitLeadsToExit == (m.quit = "user") ~> (m.pc = "exit")
